@@ -200,6 +200,15 @@ def _c16_miri(seed):
     verif = os.path.dirname(os.path.dirname(os.path.abspath(__file__)))
     harness = os.path.join(verif, "harness")
     lines = _c.gen_C16(_r.Random(seed), "quick")[::3]
+    # finding F4 again, in its aliasing form: a terminal accessor returns `&'a RefCell<Terminal>` made from `&self` by a raw-pointer cast, so
+    # safe code keeps that shared reference while it calls `update(&mut self)`.  Tree Borrows tolerates ONE update after the accessors
+    # (the `&mut` is still "reserved"); update -> any terminal access -> update is rejected ("reborrow … is forbidden") on the unchanged
+    # crate for every device — the normal control loop.  That is F4 (known finding), not something this interpreter run is for: lines
+    # with a second update are left out so that the run reaches the lines it IS for (scratch slots, Reference liveness).
+    def _second_update(l):
+        t = l.split(" ")
+        return t[0] == "dv" and sum(1 for x in t if x.startswith(("u:", "ut:", "tu:"))) >= 2
+    lines = [l for l in lines if not _second_update(l)]
     e = dict(os.environ)
     e["CARGO_NET_OFFLINE"] = "true"
     e.pop("RUSTFLAGS", None)
